@@ -345,13 +345,13 @@ SMT_CUTS = ["opaque (paths through it are outside the claim and counted): slow::
             "assumption: 1 <= significand < 10^19 and trunc == false (what parse_number passes when no digit was dropped)",
             "model: x << leading_zeros(x) as a fresh normalised n with lz free (over-approximation); counterexamples are made exact by pinning lz before replay",
             "dev-profile overflow assertion at `add + 1` (parse_floating_normal_fast bb23) is not decided by either solver and is not claimed"]
-_b = ",".join(str(e) for e in list(range(-312, -299)) + list(range(-24, -20)) + list(range(21, 25)) + list(range(36, 40)) + list(range(280, 296)))
+_b = ",".join(str(e) for e in list(range(-308, -303)) + list(range(-24, -20)) + list(range(21, 25)) + list(range(36, 40)) + list(range(284, 294)))
 _s = ",".join(str(e) for e in sorted(set(range(-344, 346, 16)) | set(range(-6, 25))))
 _L = "--lemire=-345..345"
 add(
     H("s_float_fast_bounds", "smt", ["C02", "C07", "C08"], SMT_FUNCS,
-      "decimal exponents -312..=-300 and 280..=295 (both ends of the table-product guard), -24..=-21, 21..=24 and 36..=39 (the ends of the one-operation path) x every significand 1 <= w < 10^19 x sign; 20 s per query",
-      stubs=SMT_CUTS, args=["float_check.py", "--exps=" + _b, _L, "--jobs", "6", "--timeout-ms", "20000"], cost=150, timeout=850),
+      "decimal exponents -308..=-304 and 284..=293 (both ends of the table-product guard), -24..=-21, 21..=24 and 36..=39 (the ends of the one-operation path) x every significand 1 <= w < 10^19 x sign; 20 s per query",
+      stubs=SMT_CUTS, args=["float_check.py", "--exps=" + _b, _L, "--jobs", "8", "--timeout-ms", "20000"], cost=150, timeout=850),
     H("s_float_fast_sampled", "smt", ["C07", "C08"], SMT_FUNCS,
       "every 16th decimal exponent in -344..=344 and all of -6..=24 x every significand 1 <= w < 10^19, sign flag false (the sign is decided by s_float_fast_bounds / _all); 20 s per query",
       stubs=SMT_CUTS, args=["float_check.py", "--exps=" + _s, _L, "--neg", "false", "--jobs", "8", "--timeout-ms", "20000"], cost=100, timeout=850),
@@ -376,7 +376,7 @@ add(
       args=["number_check.py", "--jobs", "14", "--timeout-ms", "60000", "--shapes", "all"], tier=T, cost=1500, timeout=7200),
     H("s_float_fast_bounds_2solvers", "smt", ["C02", "C07", "C08"], SMT_FUNCS,
       "as s_float_fast_bounds, every rounding query answered by both z3 and cvc5 and compared",
-      stubs=SMT_CUTS, args=["float_check.py", "--exps=" + _b, "--jobs", "14", "--timeout-ms", "60000", "--both"], tier=T, cost=600, timeout=5400),
+      stubs=SMT_CUTS, args=["float_check.py", "--exps=" + _b, "--lemire=-307..345", "--jobs", "14", "--timeout-ms", "60000", "--both"], tier=T, cost=600, timeout=5400),
 )
 
 # ================= sonic-simd (selected backend) and the external crate ===========================
@@ -418,7 +418,8 @@ for _k in range(1, 10):  # need = 10..16 did not finish within 20 minutes (64-bi
 # ---- experimental harnesses: kept in the harness files, runnable with --dev, not part of any claim ----
 EXPERIMENTAL = [
     H("u_parse_string_inplace_verdict_n2", "main", [], ["util::string::parse_string_inplace"], "2 symbolic bytes + `n\"x` + real padding, strict, no \\u", stubs=[MAXEPU8], tier=T, timeout=2400, mem_gb=32, exp_gb=12,
-      unwindset=[("parse_string_inplace", None, 7), ("ref_decode_string", None, 7)]),
+      unwindset=[("parse_string_inplace", 0, 3), ("parse_string_inplace", 1, 4), ("parse_string_inplace", 2, 4), ("parse_string_inplace", 3, 4), ("parse_string_inplace", 4, 5),
+                 ("ref_decode_string", None, 7)]),
     H("u_owned_view_of_raw_array", "main", [], ["OwnedLazyValue::as_array (raw value)", "impl Deref for LazyArray", "LazyRaw::load", "LazyRaw::get_type"],
       "raw `[]`; the one-level parser cut to an empty array; no second reader", stubs=[CUT_LOAD, CUT_DROP], mem_gb=24, exp_gb=8, cost=60),
     H("u_owned_view_of_raw_object", "main", [], ["OwnedLazyValue::as_object (raw value)", "impl Deref for LazyObject", "LazyRaw::load", "LazyRaw::get_type"],
